@@ -4,6 +4,7 @@ mod engine;
 mod gen;
 mod props;
 mod refmodel;
+mod sr;
 
 use engine::{Local, Tier, Val};
 
